@@ -22,7 +22,15 @@ var (
 	progressWhat atomic.Value // short description of it
 )
 
+// hangSeen: once a case has missed the generous bound the run is going to fail; the cases that follow (rapid's
+// shrinking attempts) get a short bound so that minimising does not cost 20 s per attempt. A short-bound miss
+// under load can then only make the reported counterexample less minimal, never change the verdict.
+var hangSeen atomic.Bool
+
 func hangBudget(work int) time.Duration {
+	if hangSeen.Load() {
+		return 2*time.Second + time.Duration(work)*2*time.Millisecond
+	}
 	return 20*time.Second + time.Duration(work)*10*time.Millisecond
 }
 
@@ -40,6 +48,7 @@ func bounded(work int, describe func() string, f func()) string {
 	case <-done:
 		return ""
 	case <-timer.C:
+		hangSeen.Store(true)
 		what, _ := progressWhat.Load().(string)
 		return fmt.Sprintf("SIG=%s the code under test did not return within %v (real time; last started: step %d %s) | %s", sigHang, budget, progressStep.Load(), what, describe())
 	}
